@@ -692,11 +692,15 @@ class Session:
                 if self.case.get('fresh_each', True):
                     self.load_phase(keys, 'fresh')
         else:
-            # objects that keep an oid nobody stored (only matters if the program goes on)
+            # a failed commit must leave every object that had no oid without one: nothing stored it
             for snap in self.events:
                 for h, o in enumerate(snap.objs):
                     if not isinstance(o, Snap) and snap.oid[h] is None and o._p_oid is not None:
                         self.stale.add((snap.db, o._p_oid))
+                        self.violation('C14:stale-oid-after-failed-commit', 'the commit failed (%s) and was '
+                                       'aborted, but new object %d (%s) keeps oid %s of the aborted commit: a '
+                                       'later commit will refer to it without storing it'
+                                       % (type(exc).__name__, h, type(o).__name__, o._p_oid.hex()))
             orc.txn_failed(self.events, before)
 
     @staticmethod
@@ -1171,7 +1175,8 @@ def gen_case(rng, thorough=False):
     ndb = 2 if rng.random() < (0.45 if thorough else 0.35) else 1
     case = dict(ndb=ndb, xrefs=[1 if rng.random() < 0.93 else 0, 1],
                 oids=[gen_oids(rng, 12), gen_oids(rng, 8), []], ops=[],
-                legacy=rng.random() < 0.5, legacy_weak=rng.random() < 0.5, fresh_each=rng.random() < 0.5)
+                legacy=rng.random() < 0.5, legacy_weak=rng.random() < 0.5, fresh_each=rng.random() < 0.5,
+                goon=rng.random() < 0.7)
     ops = case['ops']
     weak_p = rng.choice([0.0, 0.1, 0.1, 0.25])
     counter = [0]
@@ -1226,9 +1231,17 @@ def gen_case(rng, thorough=False):
             ops.append(['foreign', victim, rng.choice(['A2', 'X', 'B2'])])
             ops.append(['set', rng.choice(allnames), 'g', ['r', victim]])
             ops.append(['commit'])
-            return case
+            if not case['goon']:
+                return case
+            continue
         if txn and rng.random() < 0.5:
             ops.append(['touch', rng.choice(allnames)])
+        if rng.random() < 0.05:                 # a commit that fails while pickling, then the retry
+            victim = rng.choice(allnames)
+            ops += [['poison', victim], ['touch', victim], ['commit'], ['unpoison', victim]]
+            for n in fresh:
+                if rng.random() < 0.5:
+                    ops.append(['root', home[n], n, n])
         ops.append(['commit'])
     return case
 
